@@ -66,20 +66,22 @@ Lemma sim_markupDeclarationOpenState : forall m s, R m s -> st m = markupDeclara
 Proof.
   intros m s HR Hst.
   destruct m as [ms mi mc mt mo mcd mb]; destruct s as [ss si sc st' so scd sb];
-  unfold R in HR; cbn [st inp cur tmp out cdata_ok bad] in *;
-  destruct HR as (Hs & Hi & Ht & Ho & Hcd & Hb & Hsb & Hc); subst. clear Hc.
-  unfold simok, step_markupDeclarationOpenState. cbn [inp cdata_ok].
+  unfold R, sst, sinp in HR; cbn [st inp cur tmp out cdata_ok bad] in *;
+  destruct HR as (Hs & Hi & Ht & Ho & Hcd & Hb & Hsb & Hc); subst; cbv beta iota. clear Hc.
+  unfold step_markupDeclarationOpenState. cbn [inp cdata_ok].
   assert (Hfin : forall r, bad (fst r) = false -> wk (fst r) = true -> snd r = true ->
+            cdata_ok (fst r) = mcd -> (covered (fst r) = false -> mcd = true) ->
             (exists s', mdo_alt mi sc mt (flatr mo) mcd = (s', true) /\ R (fst r) s') ->
-            bad (fst r) = false /\ wk (fst r) = true /\
-            (if snd r then exists j s', sp_iter j (mk_tk markupDeclarationOpenState mi sc mt (flatr mo) mcd false) = Some s' /\ R (fst r) s'
-             else exists s', sp_step (mk_tk markupDeclarationOpenState mi sc mt (flatr mo) mcd false) = (s', false) /\ R (fst r) s')).
-  { intros r Hb Hw Hs (s' & He & HR). split; [exact Hb|]. split; [exact Hw|]. rewrite Hs.
+            simok (mk_tk markupDeclarationOpenState mi sc mt (flatr mo) mcd false) r).
+  { intros r Hb Hw Hs Hcd Hcv (s' & He & HR). unfold simok. cbn [cdata_ok].
+    split; [exact Hb|]. split; [exact Hw|]. split; [exact Hcd|]. split; [exact Hcv|]. rewrite Hs.
     exists 1%nat, s'. split; [|exact HR]. cbn [sp_iter]. rewrite sp_mdo_eq, He. reflexivity. }
   apply Hfin; unfold mdo_alt;
   destruct mi as [|c r]; try reflexivity;
   try (destruct (c =? 45) eqn:E45; [destruct r as [|c2 r2]; [|destruct (c2 =? 45) eqn:E2]|
         destruct ((c =? 100) || (c =? 68)) eqn:Ed; [destruct (kw_match false kw_octype r) eqn:Ek|
           destruct ((c =? 91) && mcd) eqn:Ec; [destruct (kw_match true kw_CDATA r) eqn:Ek|]]]);
-  try reflexivity; cbn [fst snd]; m_norm; (eexists; split; [reflexivity|]); r_solve.
+  try reflexivity; cbn [fst snd]; m_norm;
+  try (intro Hcv; first [discriminate Hcv | (apply andb_true_iff in Ec; destruct Ec; assumption)]);
+  (eexists; split; [reflexivity|]); r_solve.
 Qed.
